@@ -173,5 +173,5 @@ Emit == pc = "done" =>
                                src |-> CaseSrc, docs |-> <<CaseDoc>>,
                                alts |-> IF EmitAlts /\ Commutative /\ k >= 2 THEN <<SrcFor(RevOrd)>> ELSE <<>>,
                                exp |-> SetSeq(Adm), eng |-> Eng,
-                               plan |-> [tri |-> TRUE, sws |-> << <<>> >>]]))
+                               plan |-> [tri |-> TRUE, eng |-> TRUE, sws |-> << <<>> >>]]))
 =============================================================================
